@@ -31,7 +31,8 @@ def run(ctx):
            require_actions=("Find", "Unite", "ClassesOp", "Clone"),
            universe="all histories of unite/find/classes/clone, %s" % ("4 elements x 2 instances" if ctx.quick else "5 elements x 2 instances"))
     # 2. spec -> impl: every transition of the machine as a replayable case
-    cfgs = [("q", 3), ("a", 4), ("b", 5), ("c", 3)] if ctx.quick else [("q", 3), ("a", 4), ("b", 5), ("c", 3), ("t", 4), ("u", 6)]
+    # ("h", "h2", "ht": EVERY history up to 4 / 5 operations on 3 elements, also steps that leave the machine's state unchanged)
+    cfgs = [("q", 3), ("a", 4), ("b", 5), ("c", 3), ("h", 3), ("h2", 3)] if ctx.quick else [("q", 3), ("a", 4), ("b", 5), ("c", 3), ("h", 3), ("h2", 3), ("ht", 3), ("t", 4), ("u", 6)]
     for tag, elems in cfgs:
         rc, out = ctx.tlc_raw("Gen_C20", cfg=f"Gen_C20_{tag}", workers=1, timeout=3000, xmx="8g", tag=f"gen_{tag}")
         if "No error has been found" not in out:
@@ -45,7 +46,8 @@ def run(ctx):
                 if ln.startswith('"{'):
                     f.write(ln + "\n")
         log(f"[gen] Gen_C20_{tag}: {st} states, {tr} transitions -> cases")
-        ctx.exhaustive_universes.append(f"every transition of UnionFind with constants of Gen_C20_{tag}.cfg")
+        ctx.exhaustive_universes.append((f"every history of UnionFind up to the length bound of Gen_C20_{tag}.cfg" if tag.startswith("h") else
+                                         f"every transition of UnionFind with constants of Gen_C20_{tag}.cfg"))
         replay_cases(ctx, p, elems)
     # 3. impl -> spec: random long histories as traces
     ev = ctx.work / "events.ndjson"
